@@ -86,6 +86,11 @@ def plan(tier, seed):
     groups = []
     for pre in prefixes(tier, seed):
         groups.append([dict(pre, qtier=tier, **o) for o in opts])
+    # a primitive cell listed in another atom order (function-level entry points only: the dynamical-matrix classes)
+    for name, S_ in (("NaCl-prim-2", [[2, 0, 0], [0, 2, 0], [0, 0, 2]]), ("wurtzite-4", [[2, 0, 0], [0, 1, 0], [0, 0, 1]]), ("tri-P1-3", [[2, 0, 0], [0, 1, 0], [0, 0, 1]]),
+                     ("NaCl-conv-8-interleaved", [[1, 0, 0], [0, 1, 0], [0, 0, 1]])):
+        pmv = "F" if name.startswith("NaCl-conv") else "none"
+        groups.append([dict({"xtal": name, "variant": "as-is", "S": S_, "pm": pmv}, qtier=tier, reorder=True, **o) for o in opts if o["path"] in ("C/dm", "Py/dm")])
     groups.sort(key=lambda g: -abs(SM.det3(g[0]["S"])) * len(X.by_name()[g[0]["xtal"]]["symbols"]))
     meta = {"alphabet": {"prefixes": len(groups), "option_tuples": len(opts), **{k: len(v) for k, v in OPTS.items()},
                          "qset": "Gamma + all commensurate + {0,1/2}^3 + 3 near-Gamma + 4 generic, each + G shifts"},
@@ -129,13 +134,21 @@ def _freqs(D, factor):
 
 
 def run_case(case, seed, c, st):
-    tag = "%s/%s/%s/%s" % (case["range"], case["layout"], case["svecs"], case["path"])
+    tag = "%s/%s/%s/%s%s" % (case["range"], case["layout"], case["svecs"], case["path"], "/reordered-primitive" if case.get("reorder") else "")
     dense = case["svecs"] == "dense"
     FACTOR = 3.7 if case["path"].endswith("@f") else None
     dense = (dense, FACTOR)
     if dense not in st["ph"]:
         try:
             st["ph"][dense] = phx.make_phonopy(c, case["S"], case["pm"], store_dense_svecs=dense[0], **({"factor": FACTOR} if FACTOR else {}))
+            if case.get("reorder") and len(st["ph"][dense].primitive) > 1:
+                # primitive cell with its atoms listed in another order than in the supercell (get_primitive(positions_to_reorder=))
+                from phonopy.structure.cells import get_primitive
+
+                ph_ = st["ph"][dense]
+                want_ = ph_.primitive.scaled_positions[::-1].copy()
+                tm_ = (np.asarray(ph_.primitive.cell) @ np.linalg.inv(np.asarray(ph_.supercell.cell))).T
+                ph_._primitive = get_primitive(ph_.supercell, tm_, symprec=1e-5, store_dense_svecs=dense[0], positions_to_reorder=want_)
         except Exception as e:
             st["ph"][dense] = e
     ph = st["ph"][dense]
@@ -176,7 +189,14 @@ def run_case(case, seed, c, st):
             fr = None
         elif entry == "run_qpoints":
             ph.force_constants = fc_in.copy()
-            ph.run_qpoints([q for q, _ in qs], with_dynamical_matrices=True)
+            qlist = [q for q, _ in qs]
+            if case["layout"] == "compact":
+                qlist = np.asfortranarray(np.array(qlist, dtype="double"))  # the same q-points, Fortran-ordered
+            elif case["svecs"] == "sparse":
+                wide = np.zeros((len(qlist), 5))
+                wide[:, 1:4] = np.array(qlist)
+                qlist = wide[:, 1:4]  # ... or as columns of a wider table
+            ph.run_qpoints(qlist, with_dynamical_matrices=True)
             trans += len(qs)
             d = ph.get_qpoints_dict()
             Ds = list(d["dynamical_matrices"])
